@@ -2,6 +2,7 @@
 Engine P for one property: obligations from the current source, discharged, as JSON."""
 import argparse
 import json
+import os
 import sys
 import time
 
@@ -28,11 +29,40 @@ def ob_json(w, r, ob, k, c):
     return d
 
 
+def one(w, k, timeout):
+    if k.startswith("lemma::"):
+        c = {"key": k}
+        r = runmod.lemma_result(w, k[7:])
+    else:
+        c = w.contracts[k]
+        r = contracts.verify_function(w, k)
+    if getattr(r, "skipped", False):
+        return None
+    for m in w.contract_modules:
+        h = getattr(m, "prepare", None)
+        if h:
+            h(w, r)
+    for ob in r.obligations:
+        solve.discharge(w, ob, timeout)
+    counts = {}
+    obs = []
+    for ob in sorted(r.obligations, key=lambda o: (o.kind, o.name, o.line or 0)):
+        i = counts.get(ob.ident(), 0)
+        counts[ob.ident()] = i + 1
+        obs.append(ob_json(w, r, ob, i, c))
+    fj = {"key": k, "sha": r.sha, "paths": r.paths, "returns": r.returns, "raises": r.raises,
+          "unsupported": r.unsupported, "dropped": r.dropped, "notes": sorted(set(r.notes)),
+          "obligations": obs}
+    g = [] if k.startswith("lemma::") else guards.for_function(w, k, r)
+    return (fj, g)
+
+
 def main():
     ap = argparse.ArgumentParser()
     ap.add_argument("prop")
     ap.add_argument("--json", required=True)
     ap.add_argument("--tier", default="quick")
+    ap.add_argument("--worker")
     a = ap.parse_args()
     t0 = time.time()
     w = world.build()
@@ -43,31 +73,44 @@ def main():
            "assumptions": [], "trusted_base": []}
     keys = keys + ["lemma::" + n for n, l in getattr(w, "lemmas", {}).items()
                    if a.prop in l.get("properties", [])]
-    for k in keys:
-        if k.startswith("lemma::"):
-            c = {"key": k}
-            r = runmod.lemma_result(w, k[7:])
-        else:
-            c = w.contracts[k]
-            r = contracts.verify_function(w, k)
-        for m in w.contract_modules:
-            h = getattr(m, "prepare", None)
-            if h:
-                h(w, r)
-        for ob in r.obligations:
-            solve.discharge(w, ob, timeout)
-        counts = {}
-        obs = []
-        for ob in sorted(r.obligations, key=lambda o: (o.kind, o.name, o.line or 0)):
-            i = counts.get(ob.ident(), 0)
-            counts[ob.ident()] = i + 1
-            obs.append(ob_json(w, r, ob, i, c))
-        out["functions"].append({"key": k, "sha": r.sha, "paths": r.paths, "returns": r.returns,
-                                 "raises": r.raises, "unsupported": r.unsupported,
-                                 "dropped": r.dropped, "notes": sorted(set(r.notes)),
-                                 "obligations": obs})
-        if not k.startswith("lemma::"):
-            out["guards"].extend(guards.for_function(w, k, r))
+    if a.worker:
+        res = [one(w, k, timeout) for k in a.worker.split("|")]
+        json.dump([r for r in res if r is not None], open(a.json, "w"), default=str)
+        return
+    jobs = int(os.environ.get("VERIF_JOBS", "8"))
+    if len(keys) > 1 and jobs > 1:
+        import subprocess, tempfile
+        chunks = [[] for _ in range(min(jobs, len(keys)))]
+        for i, k in enumerate(keys):
+            chunks[i % len(chunks)].append(k)
+        procs = []
+        td = tempfile.mkdtemp(prefix="pjson_", dir=os.path.dirname(os.path.abspath(a.json)))
+        for i, ch in enumerate(chunks):
+            of = os.path.join(td, f"w{i}.json")
+            procs.append((subprocess.Popen([sys.executable, "-m", "pyvc.pjson", a.prop, "--json", of,
+                                            "--tier", a.tier, "--worker", "|".join(ch)]), of))
+        results = {}
+        for p_, of in procs:
+            p_.wait()
+            if os.path.exists(of):
+                for fr in json.load(open(of)):
+                    results[fr[0]["key"]] = fr
+        import shutil
+        shutil.rmtree(td, ignore_errors=True)
+        for k in keys:
+            if k in results:
+                out["functions"].append(results[k][0])
+                out["guards"].extend(results[k][1])
+            elif not (not k.startswith("lemma::") and w.contracts[k].get("optional")):
+                out["functions"].append({"key": k, "sha": None, "paths": 0, "returns": 0,
+                                         "raises": {}, "unsupported": "worker produced no result",
+                                         "dropped": [], "notes": [], "obligations": []})
+    else:
+        for k in keys:
+            fr = one(w, k, timeout)
+            if fr is not None:
+                out["functions"].append(fr[0])
+                out["guards"].extend(fr[1])
     out["guards"].extend(guards.for_specs(w, a.prop))
     out["assumptions"] = guards.assumptions(w, a.prop)
     out["trusted_base"] = guards.trusted_base(w, a.prop)
